@@ -265,7 +265,8 @@ class ArraySchemaBackend(PandasSchemaBackend):
                 and duplicates.any()
             ):
                 passed = False
-                failure_cases = reshape_failure_cases(failed)
+                # a repeated null is a duplicate like any other
+                failure_cases = reshape_failure_cases(failed, ignore_na=False)
                 message = (
                     f"series '{check_obj.name}' contains duplicate "
                     f"values:\n{failed}"
